@@ -205,6 +205,16 @@ namespace trompeloeil { using std::unique_lock; }
 #endif
 
 
+#ifdef TROMPELOEIL_VERIF
+/* Verification hook (inactive unless TROMPELOEIL_VERIF is defined): reports accesses to
+ * state shared between threads, so that a test harness can check them against the lock. */
+void trompeloeil_verif_access(void const* addr, int is_write, char const* func, char const* file, int line);
+#define TROMPELOEIL_VERIF_ACCESS(cond, p, w) \
+  ((cond) ? ::trompeloeil_verif_access(p, w, __PRETTY_FUNCTION__, __FILE__, __LINE__) : (void)0)
+#else
+#define TROMPELOEIL_VERIF_ACCESS(cond, p, w) ((void)0)
+#endif
+
 #ifdef TROMPELOEIL_SANITY_CHECKS
 #include <cassert>
 #define TROMPELOEIL_ASSERT(x) assert(x)
@@ -1328,6 +1338,7 @@ template <typename T>
     {
       if (this != &r)
       {
+        TROMPELOEIL_VERIF_ACCESS(r.next != &r, &r, 1);
         next = r.next;
         prev = &r;
         r.invariant_check();
@@ -1362,6 +1373,7 @@ template <typename T>
     noexcept
     {
       invariant_check();
+      TROMPELOEIL_VERIF_ACCESS(next != this, this, 1);
       auto n = next;
       auto p = prev;
       n->prev = p;
@@ -1584,6 +1596,7 @@ template <typename T>
   -> iterator
   {
     invariant_check();
+    TROMPELOEIL_VERIF_ACCESS(true, this, 1);
     t->next = next;
     t->prev = this;
     next->prev = t;
@@ -1600,6 +1613,7 @@ template <typename T>
   -> iterator
   {
     invariant_check();
+    TROMPELOEIL_VERIF_ACCESS(true, this, 1);
     t->prev = prev;
     t->next = this;
     prev->next = t;
@@ -1759,6 +1773,7 @@ template <typename T>
       increment_call()
       noexcept
     {
+      TROMPELOEIL_VERIF_ACCESS(true, this, 1);
       ++call_count;
     }
     bool
@@ -1789,6 +1804,7 @@ template <typename T>
     set_limits(size_t L, size_t H)
       noexcept
     {
+      TROMPELOEIL_VERIF_ACCESS(true, this, 1);
       min_calls = L;
       max_calls = H;
     }
@@ -2315,6 +2331,7 @@ template <typename T>
   {
     call_matcher_base<Sig>* first_match = nullptr;
     unsigned lowest_cost = ~0U;
+    TROMPELOEIL_VERIF_ACCESS(true, &list, 0);
     for (auto& i : list)
     {
       if (i.matches(p))
